@@ -132,3 +132,38 @@ pub fn parse_introspection(xml: &str) -> (Vec<String>, Vec<String>) {
     children.sort();
     (ifaces, children)
 }
+
+/// Cancellation as a fault: polls `inner` at most `polls` times that return `Pending`, then drops it (what a
+/// `select!` arm, a timeout wrapper or a dropped task does to a future at one of its await points).
+pub struct CancelAfter<F> {
+    inner: Option<std::pin::Pin<Box<F>>>,
+    polls: u32,
+    world: crate::kernel::World,
+}
+pub fn cancel_after<F: std::future::Future<Output = ()>>(world: &crate::kernel::World, polls: Option<u32>, f: F) -> CancelAfter<F> {
+    CancelAfter { inner: Some(Box::pin(f)), polls: polls.unwrap_or(u32::MAX), world: world.clone() }
+}
+impl<F: std::future::Future<Output = ()>> std::future::Future for CancelAfter<F> {
+    type Output = ();
+    fn poll(mut self: std::pin::Pin<&mut Self>, cx: &mut std::task::Context<'_>) -> std::task::Poll<()> {
+        let this = &mut *self;
+        let Some(f) = this.inner.as_mut() else { return std::task::Poll::Ready(()) };
+        match f.as_mut().poll(cx) {
+            std::task::Poll::Ready(()) => {
+                this.inner = None;
+                std::task::Poll::Ready(())
+            }
+            std::task::Poll::Pending => {
+                if this.polls == 0 {
+                    this.world.count("fault.cancel_task");
+                    this.world.log(|| "FAULT: task cancelled at an await point".to_string());
+                    this.inner = None;
+                    return std::task::Poll::Ready(());
+                }
+                this.polls -= 1;
+                std::task::Poll::Pending
+            }
+        }
+    }
+}
+impl<F> Unpin for CancelAfter<F> {}
